@@ -206,12 +206,32 @@ func runC27(c *Ctx) {
 		sends := f.Find(send)
 		ws := f.MayReach(sends, nil, send)
 		c.Check(len(sends) == 1 && ws == nil, "send-at-most-once", "a batch is put on the wire at most once per flush: a transport error after the request left is not retried (the peer may already have delivered the batch; a resend duplicates and reorders)", c.P.Pos(lit.Pos()), "the batch can be sent twice: "+f.describe(ws))
+		// the dual of "the handler is called only on failure": once the batch was put on the wire, flush ends without
+		// the handler only over the edge on which there is no error or no handler configured — a guard with any further
+		// conjunct drops a failed batch silently
+		errT := types.Universe.Lookup("error").Type()
+		noFailure := f.AllFalseEdges(func(cm cmp) bool {
+			// the fact holding on the edge: <err or handler> == nil
+			if cm.Op != token.EQL || !isNilIdent(info, cm.R) {
+				return false
+			}
+			if selField(info, cm.L) == errH {
+				return true
+			}
+			o := objOf(info, cm.L)
+			return o != nil && types.Identical(o.Type(), errT)
+		})
+		wf := f.search(searchSpec{starts: sends, avoid: handler, avoidEdges: noFailure, exits: true})
+		c.Check(wf == nil && len(noFailure) > 0, "failed-batch-always-handed", "after the send, flush ends without calling the error handler only when there is no error or no handler (a failed batch is never dropped silently)", c.P.Pos(lit.Pos()), f.describe(wf))
 		// handler receives a copy (argument is not the batch variable itself)
 		okCopy := true
 		for _, a := range hs {
 			for _, arg := range a.N.(*ast.CallExpr).Args {
-				if o := objOf(info, arg); o != nil && o.Name() == "batch" {
+				if o := objOf(info, arg); o != nil && o == batchVar() {
 					okCopy = false
+				}
+				if se, ok := ast.Unparen(arg).(*ast.SliceExpr); ok && objOf(info, se.X) == batchVar() {
+					okCopy = false // a re-slice shares the reused backing array
 				}
 			}
 		}
@@ -318,6 +338,28 @@ func runC27(c *Ctx) {
 		}
 		w = f.search(searchSpec{starts: fl, avoid: Or(drain, recvIn), exits: true})
 		c.Check(w == nil && len(fl) > 0, "flush⇒◇drain", "after every flush the writer looks at the channel again (drain or receive) before it can exit", c.P.Pos(run.Decl.Pos()), f.describe(w))
+		// (d) receive order is batch order: the message received by the main select is appended to the batch before the
+		// channel is drained further (a drain first would put later messages ahead of it)
+		appendRecv := func(n ast.Node) bool {
+			as, ok := n.(*ast.AssignStmt)
+			if !ok || len(as.Lhs) != 1 || len(as.Rhs) != 1 || objOf(info, as.Lhs[0]) != batchVar() {
+				return false
+			}
+			call, ok := as.Rhs[0].(*ast.CallExpr)
+			if !ok {
+				return false
+			}
+			id, ok := call.Fun.(*ast.Ident)
+			return ok && id.Name == "append" && len(call.Args) == 2 && objOf(info, call.Args[0]) == batchVar()
+		}
+		var mainRecv []*Atom
+		for _, a := range f.Find(recvIn) {
+			if a.Lit == nil {
+				mainRecv = append(mainRecv, a)
+			}
+		}
+		w = f.search(searchSpec{starts: mainRecv, avoid: appendRecv, target: Or(drain, flush)})
+		c.Check(w == nil && len(mainRecv) == 1, "received-first-in-batch", "the message received by the main select enters the batch before any further drain or flush (batch order = receive order)", c.P.Pos(run.Decl.Pos()), f.describe(w))
 		// (c) the done branch drains before testing
 		w = f.search(searchSpec{starts: doneAtoms, avoid: drain, exits: true})
 		c.Check(w == nil, "done⇒◇drain", "the done branch always drains the channel", c.P.Pos(run.Decl.Pos()), f.describe(w))
@@ -355,6 +397,43 @@ func runC27(c *Ctx) {
 			}
 		}
 		c.Check(okNil && len(sends) >= 1, "sent⇒nil", "submit reports success exactly when the message was placed on the channel", c.P.Pos(submit.Decl.Pos()), "a send path does not return nil")
+		// success only after a send: no path returns nil without having placed the message on the channel
+		retNil := func(n ast.Node) bool {
+			r, ok := n.(*ast.ReturnStmt)
+			return ok && len(r.Results) == 1 && isNilIdent(sinfo, r.Results[0])
+		}
+		isSend := func(n ast.Node) bool { s, ok := n.(*ast.SendStmt); return ok && selField(sinfo, s.Chan) == inF }
+		w = f.search(searchSpec{avoid: isSend, target: retNil})
+		c.Check(w == nil, "nil⇒sent", "submit returns nil only after the message was placed on the channel (a cancelled or refused submit is reported, so the caller dead-letters it)", c.P.Pos(submit.Decl.Pos()), f.describe(w))
+		// the closed signal is polled before the first attempt to enqueue: after close the writer goroutine is gone and
+		// a message placed in the buffer would be neither sent nor reported
+		firstSend := token.NoPos
+		for _, sd := range sends {
+			if firstSend == token.NoPos || sd.N.Pos() < firstSend {
+				firstSend = sd.N.Pos()
+			}
+		}
+		polled := false
+		ast.Inspect(submit.Decl.Body, func(n ast.Node) bool {
+			sel, ok := n.(*ast.SelectStmt)
+			if !ok || sel.End() > firstSend {
+				return true
+			}
+			hasDone, hasDefault := false, false
+			for _, cl := range sel.Body.List {
+				cc := cl.(*ast.CommClause)
+				if cc.Comm == nil {
+					hasDefault = true
+				} else if containsNode(cc.Comm, func(m ast.Node) bool { return isRecvFrom(sinfo, m, doneF) }) {
+					hasDone = true
+				}
+			}
+			if hasDone && hasDefault {
+				polled = true
+			}
+			return true
+		})
+		c.Check(polled && firstSend != token.NoPos, "closed-polled-before-enqueue", "submit polls the closed signal before its first attempt to enqueue", c.P.Pos(submit.Decl.Pos()), "no non-blocking look at done precedes the first send on the channel")
 	})
 
 	c.Rule("server-order", func() {
